@@ -21,7 +21,7 @@ import numpy as np
 import sympy as sp
 
 from ..core import norm, calls_in, kwarg, AnalysisError
-from ..symx import SymEval, Path, SymObj, symarray, is_zero, equal, Opaque, module_aliases, arr
+from ..symx import SymEval, Path, SymObj, symarray, is_zero, is_arr, equal, Opaque, WouldRaise, module_aliases, arr
 from .. import effects
 
 SYS = 'atomman/core/System.py'
@@ -189,67 +189,96 @@ def normalize(ctx):
     aliases = module_aliases(ctx.mod(NRM))
     V = symarray('v', (3, 3), real=True)
     o = symarray('o', (3,), real=True)
+    W = symarray('w', (3, 3), real=True)          # the rebuilt (LAMMPS-form) vectors
+    TT = symarray('tt', (3, 3), real=True)        # least-squares solution as returned by lstsq
     det = sp.Matrix(V.tolist()).det()
     pars = {k: sp.Symbol('box_' + k) for k in ('a', 'b', 'c', 'alpha', 'beta', 'gamma')}
     for left in (True, False):
-        rec = Rec()
-        tests = []
+        for want_transform in (False, True):
+            rec = Rec()
+            tests, solved, compared = [], [], []
+            battrs = {'avect': V[0], 'bvect': V[1], 'cvect': V[2], 'origin': o, 'vects': V}
+            battrs.update(pars)
+            box = SymObj(None, battrs, 'box')
 
-        def bset(**kw):
-            rec.calls.append(('box_set', dict(kw)))
+            def setv(M, origin=None, _box=box):
+                M = np.asarray(M, dtype=object)
+                _box.attrs.update({'vects': M, 'avect': M[0], 'bvect': M[1], 'cvect': M[2]})
+                if origin is not None:
+                    _box.attrs['origin'] = np.asarray(origin, dtype=object)
 
-        def wrp(*a, **k):
-            rec.calls.append(('wrap', a, k))
-        battrs = {'avect': V[0], 'bvect': V[1], 'cvect': V[2], 'origin': o, 'vects': V}
-        battrs.update(pars)
-        system = SymObj(None, {'box': SymObj(None, battrs, 'box'), 'box_set': bset, 'wrap': wrp}, 'system')
-        ev = SymEval(aliases)
-        ev.skip = lambda s: isinstance(s, (ast.Assign, ast.Assert)) and any(k in norm(s) for k in ('lstsq', 'transformation', 'test1'))
+            def bset(**kw):
+                rec.calls.append(('box_set', dict(kw)))
+                if 'a' in kw:
+                    setv(W)
+                elif 'vects' in kw:
+                    setv(kw['vects'], kw.get('origin'))
+                elif 'avect' in kw:
+                    setv([kw['avect'], kw['bvect'], kw['cvect']], kw.get('origin'))
 
-        def decide(text, v, p):
-            if isinstance(v, sp.core.relational.Relational):
-                tests.append(v)
-                return left
-            return None
-        ev.decide = decide
-        paths = ev.run_fn(fn, [system, False], {})
-        live = [p for p in paths if p.done == 'return']
-        ctx.need(len(live) == 1, 'normalize does not reduce to one path')
-        if left:
-            ok = len(tests) == 1 and isinstance(tests[0], sp.Lt) and sp.expand(tests[0].lhs - tests[0].rhs - det) == 0
-            ctx.ob('NORMALIZE', loc, 'the handedness test is (a×b)·c < 0', ok, str(tests[0]) if tests else '', node=fn)
-        bs = [c for c in rec.calls if c[0] == 'box_set']
-        if left:
-            ok = len(bs) == 2
-            if ok:
-                kw = bs[0][1]
-                ok = equal(kw.get('avect'), V[0]) and equal(kw.get('bvect'), V[1]) and equal(kw.get('cvect'), -V[2]) and equal(kw.get('origin'), o + V[2]) and kw.get('scale', False) is False
-            ctx.ob('NORMALIZE', loc, 'a left-handed cell has its third vector reversed about the far face (a, b, -c, origin + c), holding absolute positions', ok, str(bs[0][1].keys()) if bs else '', node=fn)
-        else:
-            ctx.ob('NORMALIZE', loc, 'a right-handed cell is not flipped', len(bs) == 1, node=fn)
-        if bs:
-            kw = bs[-1][1]
-            ok = all(kw.get(k) == pars[k] for k in pars) and kw.get('scale') is True and set(kw) == set(pars) | {'scale'}
-            ctx.ob('NORMALIZE', loc, 'the cell is rebuilt from its own (a, b, c, alpha, beta, gamma) holding scaled positions (handed=%s)' % ('left' if left else 'right'), ok, str(sorted(kw)), node=fn, key='rebuild %s' % left)
-        kinds = [c[0] for c in rec.calls]
-        ok = 'wrap' in kinds and kinds.index('wrap') == len(kinds) - 1 and kinds.count('wrap') == 1
-        ctx.ob('NORMALIZE', loc, 'wrap() follows the rebuild so every atom is inside (handed=%s)' % ('left' if left else 'right'), ok, str(kinds), node=fn, key='wrap after %s' % left)
-        ctx.ob('NORMALIZE', loc, 'the copy is what is returned (handed=%s)' % ('left' if left else 'right'), live[0].ret is system, node=fn, key='ret %s' % left)
-    # transformation = least squares vects -> new vects, transposed; orthonormality assertions dominate the returns
-    asserts = [s for s in fn.body if isinstance(s, ast.Assert)]
-    rets = [s for s in ast.walk(fn) if isinstance(s, ast.Return)]
-    ok = len(asserts) >= 4 and all(a.lineno < r.lineno for a in asserts for r in rets)
-    pairs = {tuple(sorted(int(x) for x in __import__('re').findall(r'transformation\[(\d)\]', norm(a.test)))) for a in asserts}
-    ok = ok and {(0, 1), (0, 2), (1, 2)} <= pairs and any('np.linalg.norm(transformation, axis=1)' in norm(s) for s in fn.body)
-    ctx.ob('NORMALIZE', loc, 'the returned transformation is asserted orthonormal (unit rows, three zero dot products) before either return', ok, node=fn)
-    tr = [s for s in fn.body if isinstance(s, ast.Assign) and norm(s.targets[0]) == 'transformation']
-    ok = len(tr) == 1 and norm(tr[0].value).replace(' ', '') == 'np.linalg.lstsq(vects,system.box.vects,rcond=None)[0].T'
-    vd = [s for s in fn.body if isinstance(s, ast.Assign) and norm(s.targets[0]) == 'vects']
-    ok = ok and len(vd) == 1 and norm(vd[0].value) == 'deepcopy(system.box.vects)'
-    if ok:
-        firstbs = [c for c in calls_in(fn) if norm(c.func) == 'system.box_set']
-        ok = len(firstbs) == 2 and firstbs[0].lineno < vd[0].lineno < firstbs[1].lineno
-    ctx.ob('NORMALIZE', loc, 'the transformation maps the (flipped) old vectors onto the new ones: solved from a snapshot taken after the flip and before the rebuild', ok, node=tr[0] if tr else fn)
+            def wrp(*a_, **k):
+                rec.calls.append(('wrap', a_, k))
+
+            def lstsq(A, B, rcond=None):
+                solved.append((np.array(A, dtype=object), np.array(B, dtype=object)))
+                return (TT.copy(), None, None, None)
+
+            def close(x, y, **k):
+                X, Y = np.broadcast_arrays(np.asarray(x, dtype=object), np.asarray(y, dtype=object))
+                for u_, v_ in zip(X.ravel(), Y.ravel()):
+                    compared.append(sp.simplify(sp.sympify(u_) - sp.sympify(v_)))
+                return True
+            system = SymObj(None, {'box': box, 'box_set': bset, 'wrap': wrp}, 'system')
+            ev = SymEval(aliases)
+            ev.globals = {'deepcopy': lambda x: (x.copy() if is_arr(x) else x)}
+            ev.np_override = {'numpy.linalg.lstsq': lstsq, 'numpy.isclose': close, 'numpy.allclose': close}
+
+            def decide(text, v, p):
+                if isinstance(v, sp.core.relational.Relational):
+                    tests.append(v)
+                    return left
+                return None
+            ev.decide = decide
+            try:
+                paths = ev.run_fn(fn, [system, want_transform], {})
+            except (Opaque, WouldRaise) as e:
+                raise AnalysisError('normalize: %s' % e)
+            live = [p for p in paths if p.done == 'return']
+            ctx.need(len(live) == 1, 'normalize does not reduce to one path')
+            tagk = '%s-handed, transform %s' % ('left' if left else 'right', 'requested' if want_transform else 'not requested')
+            bs = [c for c in rec.calls if c[0] == 'box_set']
+            if want_transform:
+                T = TT.T
+                rows_unit = all(any(is_zero(c_ - (sp.sqrt(sum(T[i, k] ** 2 for k in range(3))) - 1), deep=False) or is_zero(c_ - (sum(T[i, k] ** 2 for k in range(3)) - 1), deep=False) for c_ in compared) for i in range(3))
+                dots = all(any(is_zero(c_ - sum(T[i, k] * T[j, k] for k in range(3)), deep=False) for c_ in compared) for i, j in ((0, 1), (0, 2), (1, 2)))
+                ret = live[0].ret
+                ctx.ob('NORMALIZE', loc, '%s: the returned transformation is tested orthonormal (unit rows, three vanishing dot products) before it is returned with the system' % tagk,
+                       rows_unit and dots and isinstance(ret, tuple) and len(ret) == 2 and ret[0] is system and equal(np.asarray(ret[1], dtype=object), T, deep=False), 'compared %s' % compared[:6], node=fn, key='orthonormal %s' % left)
+                flipped = np.array([V[0], V[1], -V[2]], dtype=object) if left else V
+                ok = len(solved) == 1 and equal(solved[0][0], flipped, deep=False) and equal(solved[0][1], W, deep=False)
+                ctx.ob('NORMALIZE', loc, '%s: the transformation maps the (flipped) old vectors onto the rebuilt ones: least squares from the vectors as they were after the flip and before the rebuild, transposed' % tagk, ok,
+                       str([(a_.tolist(), b_.tolist()) for a_, b_ in solved])[:200], node=fn, key='snapshot %s' % left)
+                continue
+            if left:
+                ok = len(tests) == 1 and isinstance(tests[0], sp.Lt) and sp.expand(tests[0].lhs - tests[0].rhs - det) == 0
+                ctx.ob('NORMALIZE', loc, 'the handedness test is (a×b)·c < 0', ok, str(tests[0]) if tests else '', node=fn)
+                ok = len(bs) == 2
+                if ok:
+                    kw = bs[0][1]
+                    given = np.asarray(kw['vects'], dtype=object) if 'vects' in kw else (np.array([kw.get('avect'), kw.get('bvect'), kw.get('cvect')], dtype=object) if all(k_ in kw for k_ in ('avect', 'bvect', 'cvect')) else None)
+                    ok = given is not None and np.shape(given) == (3, 3) and equal(given, np.array([V[0], V[1], -V[2]], dtype=object), deep=False) and 'origin' in kw and equal(np.asarray(kw['origin'], dtype=object), o + V[2], deep=False) \
+                        and kw.get('scale', False) is False
+                ctx.ob('NORMALIZE', loc, 'a left-handed cell has its third vector reversed about the far face (a, b, -c, origin + c), holding absolute positions', ok, str(bs[0][1].keys()) if bs else '', node=fn)
+            else:
+                ctx.ob('NORMALIZE', loc, 'a right-handed cell is not flipped', len(bs) == 1, node=fn)
+            if bs:
+                kw = bs[-1][1]
+                ok = all(kw.get(k) == pars[k] for k in pars) and kw.get('scale') is True and set(kw) == set(pars) | {'scale'}
+                ctx.ob('NORMALIZE', loc, 'the cell is rebuilt from its own (a, b, c, alpha, beta, gamma) holding scaled positions (handed=%s)' % ('left' if left else 'right'), ok, str(sorted(kw)), node=fn, key='rebuild %s' % left)
+            kinds = [c[0] for c in rec.calls]
+            ok = 'wrap' in kinds and kinds.index('wrap') == len(kinds) - 1 and kinds.count('wrap') == 1
+            ctx.ob('NORMALIZE', loc, 'wrap() follows the rebuild so every atom is inside (handed=%s)' % ('left' if left else 'right'), ok, str(kinds), node=fn, key='wrap after %s' % left)
+            ctx.ob('NORMALIZE', loc, 'the copy is what is returned (handed=%s)' % ('left' if left else 'right'), live[0].ret is system, node=fn, key='ret %s' % left)
     sn = ctx.fn(SYS, 'System.normalize')
     cs = [c for c in calls_in(sn) if norm(c.func).endswith('normalize') and c.args and norm(c.args[0]) == 'self']
     ctx.ob('NORMALIZE', SYS + '::System.normalize', 'System.normalize delegates to lammps.normalize on itself', len(cs) >= 1, node=sn)
